@@ -4,7 +4,7 @@
 P="$1"; shift
 cd /repo && git diff --quiet || { echo "/repo is dirty"; exit 2; }
 git apply "$P" || { echo "patch does not apply to /repo"; exit 2; }
-cd /verif
+cd "${VERIF_HOME:-/verif}"
 for c in "$@"; do
   out=$(./check "$c" 2>&1); rc=$?
   first=$(echo "$out" | grep -m1 -A1 "^VIOLATION" | tail -1 | cut -c1-260)
